@@ -32,6 +32,9 @@ structure DSt where
   ms : Array Mat := #[]
   tags : Array Tag := #[]
   err : Option String := none
+  ctags : Array Tag := #[]
+  cmeta : Option (List String) := none
+  rmeta : Option String := none
 
 def parseCap (s : String) : Option Cap :=
   match (s.splitOn ",").map nat with
@@ -53,6 +56,28 @@ def stats (src : Bytes) (tags : List Tag) : Nat × Nat :=
   let multi := (rows.filter (fun r => rows.count r ≥ 2)).length
   let na := (tags.filter (fun t => (slice src (t.name.s - t.spanS.col) t.name.e).any (· ≥ 128))).length
   (multi, na)
+
+/-- C API (`c_lib.rs`) vs Rust API on the same input: status Ok, same parse-error flag, same kinds table,
+every `TSTag` field equal to the Rust tag, docs buffer slices = the Rust docs (absent = empty). -/
+def capiCheck (s : DSt) : String :=
+  match s.cmeta with
+  | none => if s.err.isSome then "skipped" else "DIFF:no-c-output"
+  | some [err, perr, dlen, kinds] =>
+    if err != "0" then s!"DIFF:status={err}"
+    else if some perr != s.rmeta then s!"DIFF:found_parse_error={perr}"
+    else if kinds != "kinds=ok" then s!"DIFF:{kinds}"
+    else
+      let real := s.tags.toList
+      let c := s.ctags.toList
+      if c.length != real.length then s!"DIFF:count_c={c.length}_rust={real.length}"
+      else
+        let total := (real.map (fun t => (t.docs.getD []).length)).foldl (· + ·) 0
+        if nat dlen != total then s!"DIFF:docs_len={dlen}_expected={total}"
+        else match diffTags (c.map (fun t => { t with docs := none })) (real.map (fun t => { t with docs := none })) 0 with
+          | some d => s!"DIFF:{d}"
+          | none =>
+            if (c.zip real).all (fun (a, b) => a.docs.getD [] == b.docs.getD []) then "ok" else "DIFF:docs"
+  | some _ => "DIFF:bad-cmeta"
 
 def runCase (s : DSt) : String :=
   let cfg := mkCfg s.names s.tagsFrom s.pats
@@ -91,7 +116,7 @@ def runCase (s : DSt) : String :=
   let lz := match lossy with
     | [] => "-"
     | m :: _ => m.replace " " "_"
-  s!"{s.id} corr={corr.replace " " "_"} vars={vars} judge={j} tags={real.length} matches={ms.length} skipped={skipped} lossy={lossy.length} lossymsg={lz} multi={multi} nonascii={na} cfgbad={if cfg.invalid then 1 else 0} names={nm.length} arrbad={arrbad}"
+  s!"{s.id} corr={corr.replace " " "_"} vars={vars} judge={j} tags={real.length} matches={ms.length} skipped={skipped} lossy={lossy.length} lossymsg={lz} multi={multi} nonascii={na} cfgbad={if cfg.invalid then 1 else 0} capi={(capiCheck s).replace " " "_"} names={nm.length} arrbad={arrbad} late={if noLate {} cfg s.src none ms (initSt s.src) then 0 else 1}"
 
 def step (s : DSt) (line : String) : IO DSt := do
   match line.splitOn " " with
@@ -107,13 +132,19 @@ def step (s : DSt) (line : String) : IO DSt := do
     match parseTag ws with
     | some t => return { s with tags := s.tags.push t }
     | none => IO.println s!"{s.id} corr=BADINPUT judge=BADINPUT"; return s
+  | "ctag" :: ws =>
+    match parseTag ws with
+    | some t => return { s with ctags := s.ctags.push t }
+    | none => return { s with cmeta := some ["bad"] }
+  | "cmeta" :: ws => return { s with cmeta := some ws }
+  | ["rmeta", e] => return { s with rmeta := some e }
   | "tagerr" :: ws => return { s with err := some (" ".intercalate ws) }
   | ["run"] => IO.println (runCase s); return s
   | ["u16", id, h, real] =>
     let b := unhex h
     let m := utf16Len b
     let spec := utf16Spec b
-    let half := (if m == nat real then "11" else "00") ++ (if spec == nat real then "11" else "00")
+    let half := (if m == nat real then "11" else "00") ++ (if utf16LenF b == nat real then "11" else "00")
     let vars := half ++ half
     IO.println s!"{id} kind=u16 corr={if m == nat real then "ok" else s!"DIFF:model={m},real={real}"} vars={vars} spec={if spec == nat real then "ok" else "differs"} valid={if validUtf8 b then 1 else 0}"
     return s
